@@ -170,6 +170,11 @@ public:
                     if (pn == nullptr) {
                         //ti->store_root_ptr(nullptr);
                         // remain empty deleted root node.
+                        // It is the only border now. If it became root while it was
+                        // being emptied (its last sibling was removed after this node
+                        // unlinked itself), it still points to that sibling.
+                        set_next(nullptr);
+                        set_prev(nullptr);
                         ti->root_unlock();
                         version_unlock();
                         return;
